@@ -202,6 +202,8 @@ class World:
     self._inv_before = dict(config._INVERSE_REGISTRY)
     self._hooks_before = list(config._FINALIZE_HOOKS)
     self._hard_reset()
+    self.twins = {}         # dotted selector of a twin registration -> selector that owns the shared function
+    self.calling = None
     self.reg_status = {}    # dotted selector -> 'ok' / exception class: every initial descriptor is valid by construction
     for d in descriptors:
       self.reg_status[dotted(d['sel'])] = self.register(d)
@@ -301,13 +303,31 @@ class World:
     world = self
     is_cls = d['kind'] == 'cls'
     sig, names, defaults = self._signature_src(d, with_self=is_cls)
+    if d.get('twin_of'):
+      # the very same function registered once more under another name, with its own allow / deny lists
+      obj = self.originals[d['twin_of']]
+      allow = None if list(d['allow']) == ['*'] else list(d['allow'])
+      try:
+        if d['api'] == 'register':
+          gin.register(name, module=module or None, allowlist=allow, denylist=list(d['deny']) or None)(obj)
+          wrapped = None
+        else:
+          wrapped = gin.external_configurable(obj, name=name, module=module or None, allowlist=allow, denylist=list(d['deny']) or None)
+      except (ValueError, TypeError, RuntimeError) as e:
+        return type(e).__name__
+      self.desc[sel] = d
+      self.twins[sel] = d['twin_of']
+      self.probes[sel] = wrapped
+      return 'ok'
 
     def record(loc):
       world.ran = True
       delivered = {n: loc[n] for n in names}
       va = list(loc.get('args', ()))
       kw = dict(loc.get('kw', {}))
-      r = Result(world, sel, list(gin.current_scope()), delivered, va, kw)
+      # a function shared by two registrations cannot know which one was called: the harness says so
+      me = world.calling if (world.calling and world.twins.get(world.calling) == sel) else sel
+      r = Result(world, me, list(gin.current_scope()), delivered, va, kw)
       world.evals.append(r)
       if d['body'] == 'macro':
         return delivered['value']
@@ -348,6 +368,10 @@ class World:
     return 'ok'
 
   def callable_for(self, sel):
+    if (sel in self.twins or sel in self.twins.values()) and self.probes.get(sel) is None:
+      # gin.register leaves the shared original untouched, and the original alone no longer identifies the
+      # registration: look the registry's version up by its own name
+      return self.gin.get_configurable(sel)
     if self.desc[sel]['api'] == 'builtin':
       with self.gin.config_scope(None):
         return self.gin.get_configurable(sel)
@@ -669,7 +693,11 @@ class World:
     call_scope = list(self.gin.current_scope())
     res = dict(delivered=[], va=[], kw=[], missing=[], ran=False, evals=[])
     try:
-      r = fn(*args, **kwargs)
+      self.calling = sel
+      try:
+        r = fn(*args, **kwargs)
+      finally:
+        self.calling = None
       res['status'] = 'ok'
       top = self.evals[-1] if self.evals else None
       if top is not None and top.sel == sel:
